@@ -277,10 +277,13 @@ class ContextStub:
 
 
 # ====================================================================== _to_batch / _evaluate_pdf
-def fresh_points(vc, s, xrank, dim, kind):
-    """the query and, independently of the code, the point matrix it denotes: n points, P(r, i)"""
-    n = z3.Int('n')
-    vc.fin_bounds.append(n)
+def fresh_points(vc, s, xrank, dim, kind, rows=None):
+    """the query and, independently of the code, the point matrix it denotes: n points, P(r, i)  (rows: a concrete number of points)"""
+    if rows is None:
+        n = z3.Int('n')
+        vc.fin_bounds.append(n)
+    else:
+        n = z3.IntVal(rows)
     s.n = n
     if xrank == 0:
         c = z3.Const('x0', R if kind == 'real' else I)
@@ -352,7 +355,7 @@ class EvaluatePdf(Contract):
             self.target = EXT + '::ModelPrior.' + via
 
     def env(self, vc):
-        return dict(ComputationContext=ContextStub)
+        return dict(ComputationContext=ContextStub, np=npspec.module(extra=EVAL_NP))
 
     def setup(self, vc):
         dim = len(self.request)
@@ -380,22 +383,26 @@ class EvaluatePdf(Contract):
 
     def ensures(self, s, result):
         net = s.logpdf_net if s.log else s.pdf_net
-        out = [('the net is executed exactly once, and it is the %s net' % ('logpdf' if s.log else 'pdf'),
-                z3.BoolVal(len(s.computed) == 1 and len(s.loaded) == 1 and s.computed[0] is s.loaded[0] and s.loaded[0].net is net))]
-        ov_ok = []
-        if len(s.at_exec) == 1:
-            st = s.at_exec[0]
+        # how often the net runs is not part of the property (an implementation may evaluate a long query in slices): every execution
+        # must run the RIGHT net, and every loaded net is executed once
+        out = [('every execution runs the %s net (at least one execution, each loaded net executed once)' % ('logpdf' if s.log else 'pdf'),
+                z3.BoolVal(len(s.loaded) >= 1 and len(s.computed) == len(s.loaded) and all(c is l for c, l in zip(s.computed, s.loaded))
+                           and all(l.net is net for l in s.loaded)))]
+        ov_ok = [z3.BoolVal(len(s.at_exec) >= 1)]
+        for st, ln in zip(s.at_exec, s.loaded):
+            lens = []
             for i, p in enumerate(self.request):
                 e = st.get(p, {})
                 v = e.get('output')
                 if 'operation' in e or not (isinstance(v, SArr) and v.ndim == 1):
                     ov_ok.append(z3.BoolVal(False))
                     continue
-                ov_ok.append(z3.And(v.shape[0] == s.npoints, forall_range(0, s.npoints, lambda r: npspec._to_real(v.at(r), v.kind) == s.P(r, i), 'r')))
-            others = [k for k, e in st.items() if k not in self.request and net.nodes[k][0] != 'const' and 'output' in e]
+                lens.append(v.shape[0])
+                if len(s.at_exec) == 1:         # one execution: the columns of the whole query, in parameter_names order
+                    ov_ok.append(z3.And(v.shape[0] == s.npoints, forall_range(0, s.npoints, lambda r: npspec._to_real(v.at(r), v.kind) == s.P(r, i), 'r')))
+            ov_ok += [a == lens[0] for a in lens[1:]]
+            others = [k for k, e in st.items() if k not in self.request and k in ln.net.nodes and ln.net.nodes[k][0] != 'const' and 'output' in e]
             ov_ok.append(z3.BoolVal(not others))
-        else:
-            ov_ok.append(z3.BoolVal(False))
         out.append(('parameter nodes are overridden with the query columns in parameter_names order, nothing else is', z3.And(ov_ok)))
         row = lambda r: [s.P(r, i) for i in range(s.dim)]
         what = 'logpdf = sum of the log conditional densities (rows where they are finite; -inf rows: lemma_log_sum)' if s.log else \
@@ -417,6 +424,91 @@ class EvaluatePdf(Contract):
     def witness(self, vc, model, ob):
         return dict(shape=self.shape, parameter_names=self.request, note='counter-model over uninterpreted conditional densities; '
                     'replay by the bounded harness (every order / input rank)')
+
+
+def np_ceil(x):
+    l = lift(x) if not isinstance(x, SArr) else None
+    if isinstance(l, SInt):
+        return SReal(z3.ToReal(l.t))
+    if isinstance(l, SReal):
+        v = z3.simplify(l.t)
+        if z3.is_rational_value(v):
+            import math
+            return float(math.ceil(v.as_fraction()))
+        vc = cur()
+        r = vc.fresh('ceil', I)
+        vc.assume(z3.ToReal(r) >= l.t, z3.ToReal(r) < l.t + 1)
+        return SReal(z3.ToReal(r))
+    raise OutOfSubset('np.ceil(%s)' % type(x).__name__)
+
+
+def np_floor(x):
+    l = lift(x) if not isinstance(x, SArr) else None
+    if isinstance(l, SInt):
+        return SReal(z3.ToReal(l.t))
+    if isinstance(l, SReal):
+        v = z3.simplify(l.t)
+        if z3.is_rational_value(v):
+            import math
+            return float(math.floor(v.as_fraction()))
+        vc = cur()
+        r = vc.fresh('floor', I)
+        vc.assume(z3.ToReal(r) <= l.t, z3.ToReal(r) > l.t - 1)
+        return SReal(z3.ToReal(r))
+    raise OutOfSubset('np.floor(%s)' % type(x).__name__)
+
+
+def np_array_split(a, k, axis=0):
+    """np.array_split(a, k) along axis 0 for concrete sizes: n % k pieces of n // k + 1 rows, then pieces of n // k rows (views)"""
+    a = npspec.asarray(a)
+    if isinstance(k, SInt):
+        k = k.concrete()
+    n = conc(a.shape[0]) if a.ndim else None
+    if axis != 0 or not isinstance(k, int) or isinstance(k, bool) or n is None:
+        raise OutOfSubset('np.array_split beyond (array with a concrete first dimension, concrete number of sections, axis 0)')
+    if k <= 0:
+        raise program_exception(ValueError('number sections must be larger than 0.'))
+    each, extras = divmod(n, k)
+    out, lo = [], 0
+    for j in range(k):
+        hi = lo + each + (1 if j < extras else 0)
+        out.append(a[lo:hi])
+        lo = hi
+    return out
+
+
+EVAL_NP = dict(ceil=np_ceil, floor=np_floor, array_split=np_array_split, isneginf=lambda x: np_isneginf(x))
+
+
+class EvaluatePdfRows(EvaluatePdf):
+    """the same contract for CONCRETE numbers of rows: c + 1 and 2c + 1 for every integer class constant c of the real ModelPrior (a size
+    threshold an edit may introduce; read from the tree, evaluated at its real value), 3 rows when the class has none.  Sizes are concrete,
+    values symbolic: a slow path that splits a long query (np.array_split, recursion into sibling methods resolved from the real class,
+    np.concatenate) is executed symbolically and must satisfy the value clause for log=False and log=True."""
+
+    def __init__(self, shape, request):
+        EvaluatePdf.__init__(self, shape, request)
+        self.label += ':rows-at-class-constants'
+
+    def setup(self, vc):
+        from pyvc import instrument
+        consts = instrument.class_constants(EXT + '::ModelPrior', vc.repo)
+        cs = sorted({v for v in consts.values() if isinstance(v, int) and not isinstance(v, bool) and 1 <= v <= 2000000})
+        sizes = sorted({c + 1 for c in cs} | {2 * c + 1 for c in cs}) or [3]
+        dim = len(self.request)
+        rows = vc.fork_values('rows', sizes)
+        log = vc.fork_values('log', [False, True])
+        s = NS(dim=dim, xrank=2, kind='real', log=log, loaded=[], computed=[], at_exec=[], rows=rows)
+        fresh_points(vc, s, 2 if dim > 1 else 1, dim, 'real', rows=rows)
+        s.pdf_net, s.logpdf_net = Net(self.shape, self.request, False), Net(self.shape, self.request, True)
+        s.self = make_object('ModelPriorStub', attrs=dict(
+            parameter_names=list(self.request), dim=dim, client=ClientStub(s), _pdf_net=s.pdf_net, _pdf_node=s.pdf_net.joint,
+            _logpdf_net=s.logpdf_net, _logpdf_node=s.logpdf_net.joint), methods=dict(_to_batch=inline(vc, EXT + '::ModelPrior._to_batch')))
+        return s, (s.self, s.x), dict(log=log)
+
+    def witness(self, vc, model, ob):
+        return dict(shape=self.shape, parameter_names=self.request, note='a query with a concrete number of rows just above an integer class constant '
+                    'of ModelPrior; replay: bounded long-input cases (c-1, c, c+1, 2c+1 rows)')
 
 
 # ====================================================================== graph-building code on a recording model
@@ -1004,6 +1096,11 @@ class GradientLogpdf(Contract):
 
         def numgrad(fn, x, h=None, replace_neg_inf=True):
             v = cur()
+            if fn is LOGPDF and isinstance(x, SArr) and x.ndim == 2:
+                # numgrad is under contract (class Numgrad) for ONE point.  A matrix argument needs the per-row contract "row r of the result =
+                # numgrad of row r" of a numgrad that accepts matrices; that is decided by GradientLogpdfReal (real numgrad inlined) and the
+                # bounded mixed-matrix cases, not assumed here: undecided
+                raise OutOfSubset('numgrad is called with a matrix of points: outside its one-point contract (see GradientLogpdfReal / bounded gradient-rows)')
             ok = fn is LOGPDF and isinstance(x, SArr) and x.ndim == 1 and replace_neg_inf is True
             v.oblige('call-pre[numgrad(self.logpdf, one point (1-D, dim coordinates), h=stepsize)]',
                      z3.And(z3.BoolVal(ok and h is s.stepsize), x.shape[0] == self.dim) if ok else z3.BoolVal(False))
@@ -1040,7 +1137,13 @@ class GradientLogpdf(Contract):
 
     @property
     def loops(self):
-        return {0: Loop(inv=self._inv, modifies=lambda s, l: [l.grads])}
+        # the loop over the points, if the body has one (an edit may hand the whole matrix to numgrad: no loop, see the stub above)
+        from pyvc import instrument
+        try:
+            n_loops = len(instrument.loops_in_source_order(instrument.locate(self.target).node))
+        except OutOfSubset:
+            n_loops = 1
+        return {0: Loop(inv=self._inv, modifies=lambda s, l: [l.grads])} if n_loops else {}
 
     def ensures(self, s, result):
         INF = npspec.INF
@@ -1216,8 +1319,64 @@ class Numgrad(Contract):
         return out
 
 
+class GradientLogpdfReal(Contract):
+    """gradient_logpdf with the REAL numgrad inlined (no stub between them), 2 points, dim 1..2, sizes concrete and values symbolic.
+    Post from the property, per row: the gradient of row r is the central difference of logpdf AT ROW r (zero iff one of ITS OWN probes is
+    -inf) - a row of the answer depends on that row of the query only, whatever the calling protocol between the two functions is."""
+    target = EXT + '::ModelPrior.gradient_logpdf'
+    prop = 'C08'
+    fin = 3
+    ROWS = 2
+
+    def __init__(self, dim):
+        self.dim = dim
+        self.label = 'dim%d:real-numgrad:2-points' % dim
+
+    def env(self, vc):
+        extra = dict(NUMGRAD_NP)
+        extra.update({k: v for k, v in EVAL_NP.items() if k not in extra})
+        return dict(np=npspec.module(extra=extra), numgrad=inline(vc, UTL + '::numgrad'))
+
+    def setup(self, vc):
+        dim = self.dim
+        s = NS(dim=dim, calls=[])
+        fresh_points(vc, s, 2 if dim > 1 else 1, dim, 'real', rows=self.ROWS)
+        F = s.F = probe_fn(dim)
+
+        def logpdf(self_, X):
+            v = cur()
+            X = npspec.asarray(X)
+            ok = X.ndim == 2
+            v.oblige('call-pre[logpdf receives a matrix with one point per row (dim columns)]', X.shape[1] == dim if ok else z3.BoolVal(False))
+            if not ok:
+                raise OutOfSubset('logpdf called with a rank-%d array' % X.ndim)
+            Xs = X.snapshot()
+            s.calls.append(Xs)
+            return SArr(Cell(lambda r: F(*[npspec._to_real(Xs.at(r, j), Xs.kind) for j in range(dim)]), (Xs.shape[0],), 'real'))
+        s.self = make_object('ModelPriorStub', attrs=dict(dim=dim), methods=dict(logpdf=logpdf))
+        return s, (s.self, s.x), {}
+
+    def ensures(self, s, result):
+        dim, INF, h = s.dim, npspec.INF, z3.RealVal('0.00001')
+        ok = isinstance(result, SArr) and result.ndim == 2
+        out = [('n points: an n x dim matrix', z3.And(result.shape[0] == self.ROWS, result.shape[1] == dim) if ok else z3.BoolVal(False))]
+        if not ok:
+            return out
+        clean = lambda v: z3.If(z3.Or(v == INF, v == -INF), 0, v)
+        probe = lambda r, j, sg: s.F(*[s.P(r, k) + (sg * h if k == j else 0) for k in range(dim)])
+        facts = []
+        for r in range(self.ROWS):
+            anyneg = z3.Or([probe(r, j, sg) == -INF for sg in (-1, 0, 1) for j in range(dim)])
+            facts += [result.at(r, j) == clean(z3.If(anyneg, 0, (probe(r, j, 1) - probe(r, j, -1)) / (2 * h))) for j in range(dim)]
+        return out + [('row r of the gradient = central difference of logpdf at row r of the query, the zero vector iff one of the probes OF THAT ROW is -inf '
+                       '(a row does not depend on the other rows of the batch)', z3.And(facts))]
+
+    def witness(self, vc, model, ob):
+        return dict(dim=self.dim, note='2-row query; replay: bounded gradient-rows cases (matrix mixing rows inside / outside / on the boundary)')
+
+
 def _rest_contracts():
-    return [LemmaProduct(), LemmaLogSum(), Rvs(1), Rvs(2), Rvs(3), GradientLogpdf(1), GradientLogpdf(2), GradientLogpdf(3), Numgrad(1), Numgrad(2), Numgrad(3)]
+    return [LemmaProduct(), LemmaLogSum(), Rvs(1), Rvs(2), Rvs(3), GradientLogpdf(1), GradientLogpdf(2), GradientLogpdf(3), GradientLogpdfReal(1), GradientLogpdfReal(2), Numgrad(1), Numgrad(2), Numgrad(3)]
 
 
 # ====================================================================== value lemmas over the extended reals
@@ -1471,6 +1630,8 @@ def _evaluate_contracts():
     for shape in SHAPES:
         for rq in requests_eval(shape):
             out.append(EvaluatePdf(shape, rq))
+    out.append(EvaluatePdfRows('two-hier', ['b', 'a']))
+    out.append(EvaluatePdfRows('one', ['a']))
     out.append(EvaluatePdf('two-hier', ['b', 'a'], via='pdf'))
     out.append(EvaluatePdf('two-hier', ['b', 'a'], via='logpdf'))
     return out
@@ -1620,8 +1781,12 @@ def replay_refuted(cname, rf):
     want = None
     if cname.startswith('ModelPrior.__init__'):
         want = 'c08:F11-strict-subset-request'
+    elif cname.startswith('ModelPrior.gradient_logpdf') and 'real-numgrad' in cname:
+        want = 'c08:gradient-rows'
     elif cname.startswith('ModelPrior.gradient_logpdf'):
         want = 'c08:N1-integer-typed-gradient-input'
+    elif cname.startswith('ModelPrior._evaluate_pdf') and 'rows-at-class-constants' in cname:
+        want = 'c08:long-input'
     fs = [f for f in r['failures'] if want is None or f['signature'] == want] or ([] if want is None else list(r['failures']))
     if fs:
         f = fs[0]
